@@ -283,7 +283,7 @@ func main() {
 	}
 	maxOff := 2
 	if r.Thorough() {
-		maxOff = 4
+		maxOff = 5
 	}
 	r.SetRule(fmt.Sprintf("certificate forests as tuples over %d dimensions %v (sizes %v): all tuples with <=%d dimensions off the valid baseline, plus the full product of the type/name/time dimensions; VerifyLeaf == reference predicate on construction metadata; every single bit of a verified leaf and of its presented intermediate flipped; VerifyParent on every ordered pair of a 14-certificate pool; chains from SelfSignRoot/IssueIntermediate/IssueLeafAt over an issue-time x validity grid verified at issue, mid, expiry-1s (accept) and issue-1s, expiry (reject). distinct_nontrivial = distinct forest tuples evaluated.", len(dims), dimNames, dims, maxOff))
 	list := seqx.ProductList(dims, maxOff)
